@@ -643,7 +643,7 @@ prop('C08', fam_names('glencoe'), name_classes=ALL_NAME_CLASSES, naming_matters=
      assumptions=['constraints have distinct names (the format keys them by name)'])(roundtrip_script('glencoe'))
 prop('C07', fam_names('fide'), name_classes=ALL_NAME_CLASSES, naming_matters=True,
      assumptions=['names are XML-representable: no control characters'])(roundtrip_script('fide'))
-prop('C06', fam_names('afm'), name_classes=('afmword', 'afmcase'), base_class='afmword', naming_matters=True,
+prop('C06', fam_names('afm'), name_classes=('afmword', 'afmcase', 'afmkw'), base_class='afmword', naming_matters=True,
      name_stride={'quick': 3, 'thorough': 1},
      assumptions=['names match the AFM WORD token; attribute names the LOWERCASE token; enumerated domain elements, '
                   'default and null values are text tokens; range bounds are integers'])(roundtrip_script('afm'))
